@@ -99,6 +99,16 @@ func harnessC09a() {
 			vSleepUntil(tA)
 			t0 := vNow()
 			c, err := m.Accept(a)
+			// a dial for a that arrives inside the accept's window is matched - whatever else is pending on other IDs
+			if x1 != x2 {
+				if x2 == a && t2 >= tA && t2 <= tA+4*sec {
+					vCover("dial-inside-window")
+					vAssert(err == nil, "C06: a dial that arrives inside the accept's pending window is matched, whatever is pending on other IDs")
+				}
+				if x1 == a && t1 >= tA && t1 <= tA+4*sec {
+					vAssert(err == nil, "C06: a dial that arrives inside the accept's pending window is matched, whatever is pending on other IDs")
+				}
+			}
 			if err != nil {
 				vCover("accept-timed-out")
 				timedOut = true
